@@ -47,3 +47,15 @@ def c08_drill_mixed_text(case, out):
             if kinds == {True, False}:
                 return True
     return False
+
+
+@predicate
+def c05_not_in_bound(case, out):
+    """`not in` prunes a row group as soon as its min or max is in the list (api.filter_not_in);
+    the repository's own test_in_filters pins this behaviour, so it is recorded, not repaired."""
+    sig = out["sig"]
+    if sig.startswith("unit_unsound|not in|"):
+        op, val, vmin, vmax = case["unit"]
+        return bool(val) and ((vmin is not None and vmin in val) or (vmax is not None and vmax in val)) \
+            and not (vmin is not None and vmin == vmax)
+    return sig.startswith("lost|") and sig.endswith("|notin_bound")
